@@ -185,10 +185,9 @@ def declare_cond(b, kind, pre, R, Dy, Dx, via="Sigma"):
         assert Dx == Dy
         b.diag(pre + "S", R, Dy)
     elif kind == "nncontrol":
-        assert R == 1
-        Du = 1
+        Du = 1      # R = number of control vectors (a batch of controls gives a batch of conditionals sharing the covariance)
         b.spd(pre + "S", 1, Dy)
-        b.free(pre + "u", (1, Du)); b.free(pre + "P", (Du, Dy * (Dx + 1))); b.free(pre + "q", (Dy * (Dx + 1),))
+        b.free(pre + "u", (R, Du)); b.free(pre + "P", (Du, Dy * (Dx + 1))); b.free(pre + "q", (Dy * (Dx + 1),))
     else:
         raise ValueError(kind)
 
@@ -252,18 +251,23 @@ def cond_spec_params(ops, kind, pre, I, R, Dy, Dx):
         return M, ops.zeros((R, Dy)), S
     if kind == "nncontrol":
         u, P, q = I[pre + "u"], I[pre + "P"], I[pre + "q"]
-        outv = ops.zeros((Dy * (Dx + 1),))
-        for k in range(Dy * (Dx + 1)):
-            t = q[k]
-            for a in range(P.shape[0]):
-                t = t + u[0, a] * P[a, k]
-            outv[k] = t
-        M = ops.zeros((1, Dy, Dx)); bb = ops.zeros((1, Dy))
-        for i in range(Dy):
-            for j in range(Dx):
-                M[0, i, j] = outv[i * Dx + j]
-            bb[0, i] = outv[Dy * Dx + i]
-        return M, bb, S
+        Ru = u.shape[0]
+        M = ops.zeros((Ru, Dy, Dx)); bb = ops.zeros((Ru, Dy))
+        for r in range(Ru):
+            outv = ops.zeros((Dy * (Dx + 1),))
+            for k in range(Dy * (Dx + 1)):
+                t = q[k]
+                for a in range(P.shape[0]):
+                    t = t + u[r, a] * P[a, k]
+                outv[k] = t
+            for i in range(Dy):
+                for j in range(Dx):
+                    M[r, i, j] = outv[i * Dx + j]
+                bb[r, i] = outv[Dy * Dx + i]
+        Sr = ops.zeros((Ru, Dy, Dy))
+        for r in range(Ru):
+            Sr[r] = S[0]
+        return M, bb, Sr
     raise ValueError(kind)
 
 
